@@ -320,6 +320,22 @@ pub fn monitor_c06(out: &mut Out, b: &Dump, o: &Op, code: i64, a: &Dump, ctx: &C
             } else if code == 0 { fail_or_known(out, "C06", false, "a loan repaid with less than the quoted amount was accepted", ctx); }
         }
     }
+    // through the router: when the payload leaves the router with at least the quoted payback, the loan must go through
+    if let Op::RouterLoan { pre, script, .. } = o {
+        let simple = script.iter().all(|x| matches!(x, Act::Pay { to, .. } if *to == I_ROUTER));
+        if simple && code != 0 {
+            let paid: Uint256 = script.iter().map(|x| if let Act::Pay { amount, .. } = x { u256(amount.u128()) } else { Uint256::zero() }).fold(Uint256::zero(), |x, y| x + y);
+            let q = u256(z) + u256(pf) + u256(ff) + u256(bf);
+            let lim = Uint256::from(1u8) << 127;
+            let can = b.fl && z > 0 && z <= b.bal && u256(pre.u128()) <= u256(b.ab[I_ROUTER]) + u256(z)
+                && paid <= u256(b.ab[I_ADV]) + u256(pre.u128())
+                && u256(b.ab[I_ROUTER]) + u256(z) + paid >= q + u256(pre.u128())
+                && q < lim && u256(b.bal) + q < lim && u256(b.pend) + q < lim && u256(b.allf) + q < lim && u256(b.burned) + q < lim
+                && (b.cw20 || script.iter().all(|x| matches!(x, Act::Pay { amount, .. } if !amount.is_zero())))
+                && u256(b.ab[I_ROUTER]) + u256(z) + paid - u256(pre.u128()) - q + u256(b.ab[if let Op::RouterLoan { u, .. } = o { *u } else { 0 }]) < lim;
+            if can { fail_or_known(out, "C06", false, "a router loan whose payload returned at least the quoted payback amount to the router was rejected", ctx); }
+        }
+    }
     if code != 0 { return; }
     if a.supply > b.supply { fail_or_known(out, "C06", false, "vault shares were minted while a loan was outstanding", ctx); }
     let mut loans = vec![(z, 0u32, false)];
